@@ -113,4 +113,31 @@ def catalog():
     s.scalar("ab", 0, 2, order="LE")         # overlaps a
     s.scalar("opt", 4, 2, cond=Op(">", "a", 1), order="BE")   # byte 3 uncovered
     ps.append(p)
+
+    # P9: scoped byte-order defaults: a struct-level $default between two structs that rely on the module default
+    p = Program("Defaults")
+    s = p.struct("First")
+    s.scalar("a", 0, 2)
+    s.scalar("b", 2, 3, st="Int")
+    s = p.struct("Mid", default_order="BE")
+    s.scalar("a", 0, 2)
+    s.scalar("b", 2, 3, st="Int")
+    s.scalar("c", 5, 2, order="LE")
+    s = p.struct("Last")
+    s.scalar("a", 0, 2)
+    s.scalar("b", 2, 3, st="Int")
+    s.sub("m", 5, 7, "Mid")
+    s.anon_bits(12, 2, lambda b: (b.scalar("lo", 0, 9), b.scalar("hi", 9, 7, st="Int")))
+    ps.append(p)
+
+    # P10: no byte order anywhere (one-byte fields only: the Null byte order)
+    p = Program("Nullbo", default_order=None)
+    s = p.struct("Nb")
+    s.scalar("tag", 0, 1)
+    s.scalar("x", 1, 1, st="Int", cond=Op("==", "tag", 1))
+    s.scalar("y", 2, 1, st="Bcd")
+    s.array("arr", 3, 2, ("UInt",), 1)
+    s.anon_bits(5, 1, lambda b: (b.scalar("lo", 0, 3), b.scalar("fl", 7, 1, st="Flag")))
+    s.virt("t2", Op("+", "tag", "y"))
+    ps.append(p)
     return ps
